@@ -6,6 +6,8 @@
 //verif:cover VerifC17Namespace nested implied-directories
 //verif:cover VerifC17ReadDirResume resumed small-buffer
 //verif:cover VerifC17ReadFile streamed pre-downloaded past-eof
+//verif:assume streamed reads through the real content store: a fresh cafs instance (no key cache, as a mount has) at leaf size 64 over an in-memory object store holding a file of 0, 5 or 70 bytes (bytes 0, 4, 64 symbolic); offsets {0,3,62,64,69,70,100} x lengths {0,4,8,80}; optionally the fetch of a leaf fails with io.ErrUnexpectedEOF (a cut transfer)
+//verif:cover VerifC17ReadStreamedReal empty-file two-leaves leaf-fetch-fails past-eof
 package fuse
 
 import (
@@ -304,6 +306,86 @@ func VerifC17ReadFile() {
 		}
 	} else {
 		vCover("past-eof")
+	}
+	vAssert(op.BytesRead == want, "read-returns-min-of-asked-and-remaining")
+	if op.BytesRead == want && want > 0 {
+		vAssert(vBytesEqual(op.Dst[:want], content[off:off+want]), "read-returns-the-files-bytes-at-that-offset")
+	}
+}
+
+// VerifC17ReadStreamedReal: a streamed mount reads files through a fresh instance of the real content store:
+// every read returns exactly the file's bytes at that offset (nothing past the end), for empty, one-leaf and
+// two-leaf files; when the store cuts the transfer of a leaf the read fails instead of returning a short result.
+func VerifC17ReadStreamedReal() {
+	vBudget(300000000)
+	vUnwind(100000)
+	n := []int{0, 5, 70}[vChoose("fileLength", 3)]
+	content := make([]byte, n)
+	for i := range content {
+		content[i] = byte(17*i + 3)
+	}
+	for _, p := range []int{0, 4, 64} {
+		if p < n {
+			content[p] = vByte("c", 0, 255)
+		}
+	}
+	switch n {
+	case 0:
+		vCover("empty-file")
+	case 70:
+		vCover("two-leaves")
+	}
+	ctx := context.Background()
+	store := newVStore("blob")
+	w, err := cafs.New(cafs.LeafSize(64), cafs.Backend(store), cafs.Logger(zap.NewNop()))
+	vAssert(err == nil, "cafs")
+	res, err := w.Put(ctx, strings.NewReader(string(content)))
+	vAssert(err == nil, "put")
+	rootPath := ""
+	for _, k := range store.keys {
+		if len(store.data[k]) >= 64 && vBytesEqual(store.data[k][len(store.data[k])-64:], res.Key[:]) {
+			rootPath = k
+		}
+	}
+	entries := []model.BundleEntry{{NameWithPath: "d/f", Hash: res.Key.String(), Size: uint64(n)}}
+	fs := vMountRO(entries)
+	fs.streamed = true
+	fs.cafs, err = cafs.New(cafs.LeafSize(64), cafs.Backend(store), cafs.Logger(zap.NewNop()))
+	vAssert(err == nil, "cafs")
+	faulty := n > 0 && vChoose("leafFetchFails", 2) == 1
+	if faulty {
+		vCover("leaf-fetch-fails")
+		store.fail = func(op, key string) error {
+			if op == "get" && key != rootPath {
+				return io.ErrUnexpectedEOF
+			}
+			return nil
+		}
+	}
+	lk := &fuseops.LookUpInodeOp{Parent: fuseops.RootInodeID, Name: "d"}
+	vAssert(fs.LookUpInode(ctx, lk) == nil, "lookup-d")
+	lf := &fuseops.LookUpInodeOp{Parent: lk.Entry.Child, Name: "f"}
+	vAssert(fs.LookUpInode(ctx, lf) == nil, "lookup-f")
+	off := []int{0, 3, 62, 64, 69, 70, 100}[vChoose("offset", 7)]
+	ln := []int{0, 4, 8, 80}[vChoose("length", 4)]
+	op := &fuseops.ReadFileOp{Inode: lf.Entry.Child, Offset: int64(off), Dst: make([]byte, ln)}
+	err = fs.ReadFile(ctx, op)
+	want := 0
+	if off < n {
+		want = n - off
+		if want > ln {
+			want = ln
+		}
+	} else {
+		vCover("past-eof")
+	}
+	if faulty {
+		// a failed read is fine; a successful one must be complete and right
+		if err != nil {
+			return
+		}
+	} else {
+		vAssert(err == nil, "read-succeeds")
 	}
 	vAssert(op.BytesRead == want, "read-returns-min-of-asked-and-remaining")
 	if op.BytesRead == want && want > 0 {
